@@ -44,7 +44,15 @@ def run_invoker(spec):
     during = None
     exit_got, exit_err = [], None
     try:
-        with invoker(model, c12_tasks.task, n_jobs=spec["n_jobs"]) as inv:
+        try:
+            ctx = invoker(model, c12_tasks.task, n_jobs=spec["n_jobs"])
+        except Exception as e:                      # the model could not be sent to the workers
+            out["setup_error"] = type(e).__name__
+            out["not_serialisable"] = c12_tasks.failing_leaves(spec["model"], model)
+            out["after"] = {"children": len(mp.active_children()), "shm_left": shm_names(), "segments_created": len(OWN_SEGMENTS)}
+            out["invoker"] = None
+            return out
+        with ctx as inv:
             out["invoker"] = type(inv).__name__
             for tasks in spec["maps"]:
                 got, err = [], None
